@@ -88,8 +88,11 @@ EXTRA3 = [
     # exactly the same projection measured several times with explicit (dense / sparse) queries and different noise levels
     (('A', 'B'), ('A', 'B')),
     (('B', 'C'), ('A', 'B'), ('B', 'C'), ('B', 'C')),
+    # queries written with integer / bool entries (the answers are real numbers all the same)
+    (('A', 'B'), ('B', 'C'), ('C',)),
 ]
-EXTRA3_KINDS = {4: (['dense', 'sparse', 'prefix'], [0.5, 4.0, 1.0]), 5: (['sparse', 'dense', 'dense', 'prefix'], [4.0, 1.0, 0.5, 1.0])}
+EXTRA3_KINDS = {4: (['dense', 'sparse', 'prefix'], [0.5, 4.0, 1.0]), 5: (['sparse', 'dense', 'dense', 'prefix'], [4.0, 1.0, 0.5, 1.0]),
+                6: (['intprefix', 'booleye', 'intprefix'], [0.5, 0.25, 1.0])}
 
 
 def problem_for(job):
